@@ -521,6 +521,32 @@ class LibMap:
         out = [ind + "{"]
         i2 = ind + "  "
         lv_t = parse(qt(loopvar))
+        il = skip(rinit)
+        if il.get("kind") == "CXXStdInitializerListExpr" and loopvar.get("kind") == "VarDecl":
+            # for (T x : {e0, e1, ...}): a local constant array and an index loop whose bound is the number of items
+            lst = il
+            while lst.get("kind") != "InitListExpr" and lst.get("inner"):
+                lst = lst["inner"][0]
+            if lst.get("kind") != "InitListExpr":
+                raise Unsupported("range-for over an initializer list that is not a braced list")
+            items = [em.E(c) for c in lst.get("inner", [])]
+            ect = em.tm.c(strip_ref(lv_t))
+            aname, iname = "__a%d" % k, "__i%d" % k
+            out.append("%s%s %s[%d] = {%s};" % (i2, ect, aname, len(items), ", ".join(items)))
+            m = em.loop_macro()
+            out.append("%sfor (size_t %s = 0; %s < %d; %s++)" % (i2, iname, iname, len(items), iname))
+            out.append(i2 + "  " + m)
+            out.append(i2 + "{")
+            if lv_t.kind in ("ref", "rref"):
+                name = em.decl_local(loopvar, True)
+                out.append("%s  %s* %s = &%s[%s];" % (i2, ect, name, aname, iname))
+            else:
+                name = em.decl_local(loopvar, False)
+                out.append("%s  %s %s = %s[%s];" % (i2, ect, name, aname, iname))
+            out += em.body(body, i2 + "  ")
+            out.append(i2 + "}")
+            out.append(ind + "}")
+            return out
         if rct.startswith("struct vf_seq_"):
             tag = rct[len("struct vf_seq_"):]
             ect = em.tm.seq_insts[tag]
